@@ -48,32 +48,32 @@ Proof using Hh Hm. exact (wavelength_from_energy_exact h mn Hh Hm). Qed.
 
 Theorem C01_dspacing_from_tof : forall t st L sL th sth dt dL dth,
   t > 0 -> st > 0 -> L > 0 -> sL > 0 -> sth > 0 -> 0 < th * sth <= PI ->
-  is_num dt = true -> is_num dL = true -> is_float dth = true ->
+  is_num dt = true -> is_num dL = true -> is_num dth = true ->
   is_qty h mn (dspacing_from_tof O (tv t st d_s dt) (tv L sL d_m dL) (tv th sth d_rad dth))
          (h * (t * st) / (mn * (L * sL) * (2 * sin (th * sth / 2)))) angstrom d_m (fdt dt).
 Proof using Hh Hm. exact (dspacing_from_tof_exact h mn Hh Hm). Qed.
 
 Theorem C01_dspacing_from_wavelength : forall l sl th sth dl dth,
-  l > 0 -> sl > 0 -> sth > 0 -> 0 < th * sth <= PI -> is_float dl = true -> is_float dth = true ->
+  l > 0 -> sl > 0 -> sth > 0 -> 0 < th * sth <= PI -> is_float dl = true -> is_num dth = true ->
   is_qty h mn (dspacing_from_wavelength O (tv l sl d_m dl) (tv th sth d_rad dth))
          (l * sl / (2 * sin (th * sth / 2))) angstrom d_m (fdt dl).
 Proof using Hh Hm. exact (dspacing_from_wavelength_exact h mn Hh Hm). Qed.
 
 Theorem C01_dspacing_from_energy : forall E sE th sth dE dth,
-  E > 0 -> sE > 0 -> sth > 0 -> 0 < th * sth <= PI -> is_float dE = true -> is_float dth = true ->
+  E > 0 -> sE > 0 -> sth > 0 -> 0 < th * sth <= PI -> is_float dE = true -> is_num dth = true ->
   is_qty h mn (dspacing_from_energy O (tv E sE d_J dE) (tv th sth d_rad dth))
          (h / (sqrt (8 * mn * (E * sE)) * sin (th * sth / 2))) angstrom d_m (fdt dE).
 Proof using Hh Hm. exact (dspacing_from_energy_exact h mn Hh Hm). Qed.
 
 (* Q in the inverse of the wavelength's unit, whatever that unit is *)
 Theorem C01_Q_from_wavelength : forall l sl th sth dl dth,
-  l > 0 -> sl > 0 -> sth > 0 -> 0 < th * sth <= PI -> is_float dl = true -> is_float dth = true ->
+  l > 0 -> sl > 0 -> sth > 0 -> 0 < th * sth <= PI -> is_float dl = true -> is_num dth = true ->
   is_qty h mn (Q_from_wavelength O (tv l sl d_m dl) (tv th sth d_rad dth))
          (4 * PI * sin (th * sth / 2) / (l * sl)) (1 / sl) d_invm (fdt dl).
 Proof using Hh Hm. exact (Q_from_wavelength_exact h mn Hh Hm). Qed.
 
 Theorem C01_wavelength_from_Q : forall q sq th sth dq dth,
-  q > 0 -> sq > 0 -> sth > 0 -> 0 < th * sth <= PI -> is_float dq = true -> is_float dth = true ->
+  q > 0 -> sq > 0 -> sth > 0 -> 0 < th * sth <= PI -> is_float dq = true -> is_num dth = true ->
   is_qty h mn (wavelength_from_Q O (tv q sq d_invm dq) (tv th sth d_rad dth))
          (4 * PI * sin (th * sth / 2) / (q * sq)) angstrom d_m (fdt dq).
 Proof using Hh Hm. exact (wavelength_from_Q_exact h mn Hh Hm). Qed.
@@ -87,14 +87,14 @@ Proof using Hh Hm. exact (route_tof_wavelength_energy h mn Hh Hm). Qed.
 
 Theorem C01_route_tof_wavelength_dspacing : forall t st L sL th sth dt dL dth,
   t > 0 -> st > 0 -> L > 0 -> sL > 0 -> sth > 0 -> 0 < th * sth <= PI ->
-  is_num dt = true -> is_num dL = true -> is_float dth = true ->
+  is_num dt = true -> is_num dL = true -> is_num dth = true ->
   is_qty h mn (dspacing_from_wavelength O (wavelength_from_tof O (tv t st d_s dt) (tv L sL d_m dL))
                                         (tv th sth d_rad dth))
          (h * (t * st) / (mn * (L * sL) * (2 * sin (th * sth / 2)))) angstrom d_m (fdt dt).
 Proof using Hh Hm. exact (route_tof_wavelength_dspacing h mn Hh Hm). Qed.
 
 Theorem C01_route_energy_wavelength_dspacing : forall E sE th sth dE dth,
-  E > 0 -> sE > 0 -> sth > 0 -> 0 < th * sth <= PI -> is_float dE = true -> is_float dth = true ->
+  E > 0 -> sE > 0 -> sth > 0 -> 0 < th * sth <= PI -> is_float dE = true -> is_num dth = true ->
   is_qty h mn (dspacing_from_wavelength O (wavelength_from_energy O (tv E sE d_J dE)) (tv th sth d_rad dth))
          (h / (sqrt (8 * mn * (E * sE)) * sin (th * sth / 2))) angstrom d_m (fdt dE).
 Proof using Hh Hm. exact (route_energy_wavelength_dspacing h mn Hh Hm). Qed.
@@ -113,14 +113,14 @@ Theorem C01_roundtrip_energy_wavelength : forall E sE dE,
 Proof using Hh Hm. exact (roundtrip_energy_wavelength h mn Hh Hm). Qed.
 
 Theorem C01_roundtrip_wavelength_Q : forall l sl th sth dl dth,
-  l > 0 -> sl > 0 -> sth > 0 -> 0 < th * sth <= PI -> is_float dl = true -> is_float dth = true ->
+  l > 0 -> sl > 0 -> sth > 0 -> 0 < th * sth <= PI -> is_float dl = true -> is_num dth = true ->
   is_qty h mn (wavelength_from_Q O (Q_from_wavelength O (tv l sl d_m dl) (tv th sth d_rad dth))
                                  (tv th sth d_rad dth))
          (l * sl) angstrom d_m (fdt dl).
 Proof using Hh Hm. exact (roundtrip_wavelength_Q h mn Hh Hm). Qed.
 
 Theorem C01_Q_times_dspacing : forall l sl th sth dl dth,
-  l > 0 -> sl > 0 -> sth > 0 -> 0 < th * sth <= PI -> is_float dl = true -> is_float dth = true ->
+  l > 0 -> sl > 0 -> sth > 0 -> 0 < th * sth <= PI -> is_float dl = true -> is_num dth = true ->
   exists q d,
     is_qty h mn (Q_from_wavelength O (tv l sl d_m dl) (tv th sth d_rad dth)) q (1 / sl) d_invm (fdt dl)
     /\ is_qty h mn (dspacing_from_wavelength O (tv l sl d_m dl) (tv th sth d_rad dth)) d angstrom d_m (fdt dl)
